@@ -9,6 +9,7 @@ import (
 
 	"gtverif/gen"
 	"gtverif/model"
+	"gtverif/mon"
 )
 
 // C02 — rendered completely or rejected. Oracle: a document with exactly one injected malformed
@@ -17,7 +18,13 @@ import (
 // must represent exactly the model's nodes.
 
 func init() {
-	Register(&Check{Prop: "C02", Run: runC02, Replay: func(c *Ctx, cs *Case) { evalC02(c, cs) }})
+	Register(&Check{Prop: "C02", Run: runC02, Replay: func(c *Ctx, cs *Case) {
+		if cs.Kind == "long-line" {
+			evalC02Long(c, cs)
+			return
+		}
+		evalC02(c, cs)
+	}})
 }
 
 var c02Spellings = []gen.Spelling{
@@ -41,6 +48,23 @@ func runC02(c *Ctx) bool {
 		c.Progress(false)
 	})
 	base := gen.CountLabeled(nMax, 2)
+	// over-long lines (bufio.Scanner's 64 KiB token limit): rejected or rendered completely, never
+	// silently lost - whatever the position of the long line
+	kSize := 0
+	for _, n := range []int{65535, 65536, 70000} {
+		for pos := 0; pos < 4; pos++ {
+			idx := base + kSize
+			kSize++
+			if !c.Mine(idx) {
+				continue
+			}
+			cs := &Case{Idx: idx, Kind: "long-line", N: []int{n, pos}}
+			c.Journal(cs)
+			evalC02Long(c, cs)
+			c.Progress(false)
+		}
+	}
+	base += kSize
 	nRand := c.Pick(5000, 100000)
 	for j := 0; j < nRand; j++ {
 		idx := base + j
@@ -321,6 +345,41 @@ func evalC02(c *Ctx, cs *Case) {
 				}
 			}
 		}
+		// (e) nil means everything reached the output: with a writer that fails at its k-th write a
+		// nil return is a silent loss (text paths; the encoders are C14's business)
+		for _, m := range modes {
+			if m.name != "text" && m.name != "text.noiter" && m.name != "dryrun" {
+				continue
+			}
+			for _, k := range []int{0, 1} {
+				w := mon.NewRecWriter()
+				w.FailAt = k
+				var opts []gtree.Option
+				if m.name == "text.noiter" {
+					opts = append(opts, gtree.WithNoUseIterOfSimpleOutput())
+				}
+				if m.name == "dryrun" {
+					opts = append(opts, gtree.WithDryRun())
+				}
+				if m.massive {
+					opts = append(opts, gtree.WithMassive(context.Background()))
+				}
+				cs.Entry = modeLabel(m)
+				cs.Tags = []string{"wellformed", "failing-writer", map[bool]string{true: "massive", false: "simple"}[m.massive]}
+				if m.massive {
+					cs.SetDoc(doc)
+					c.Rejournal(cs)
+				}
+				o := Guard(func() error { return gtree.OutputFromMarkdown(w, strings.NewReader(doc), opts...) })
+				_, failed, _ := w.Stats()
+				c.Eval(gen.HashString(fkey+"\x00fw"+strconv.Itoa(si*10+k)+cs.Entry), failed > 0)
+				if o.Panic != nil {
+					c.Violation(cs, "panic", PanicSig(o.Panic, o.Stack), map[string]any{"doc": doc})
+				} else if failed > 0 && o.Err == nil {
+					c.Violation(cs, "accepted.incomplete", "failing-writer", map[string]any{"doc": doc, "fail_at_write": k, "accepted": trunc(string(w.Bytes()), 400)})
+				}
+			}
+		}
 		// (a)(b) every single-line injection is rejected
 		positions := make([]int, 0, len(lines))
 		for i := range lines {
@@ -386,4 +445,51 @@ func evalC02(c *Ctx, cs *Case) {
 	}
 	cs.Entry, cs.Tags, cs.N = "", nil, nil
 	cs.Doc, cs.DocText = nil, ""
+}
+
+// evalC02Long: a document with one over-long line at position first / second root / last child /
+// after leading blank lines, in every mode: the call must fail, or render everything.
+func evalC02Long(c *Ctx, cs *Case) {
+	n, pos := cs.N[0], cs.N[1]
+	long := strings.Repeat("x", n-2)
+	var f model.Forest
+	var doc string
+	switch pos {
+	case 0:
+		f = model.Forest{{Name: long, Kids: []*model.Node{{Name: "kid"}}}, {Name: "b"}}
+		doc = "- " + long + "\n  - kid\n- b\n"
+	case 1:
+		f = model.Forest{{Name: "a", Kids: []*model.Node{{Name: "k"}}}, {Name: long}, {Name: "c"}}
+		doc = "- a\n  - k\n- " + long + "\n- c\n"
+	case 2:
+		f = model.Forest{{Name: "a", Kids: []*model.Node{{Name: "k"}, {Name: long}}}}
+		doc = "- a\n  - k\n  - " + long
+	default:
+		f = model.Forest{{Name: long}, {Name: "z"}}
+		doc = "\n \n- " + long + "\n- z\n"
+	}
+	for _, m := range c02Modes() {
+		if m.name == "toml" || m.name == "dryrun" {
+			continue
+		}
+		cs.Entry = modeLabel(m)
+		cs.Tags = []string{"long-line", map[bool]string{true: "massive", false: "simple"}[m.massive]}
+		if m.massive {
+			c.Rejournal(cs)
+		}
+		out, rows, o := m.run(doc, context.Background())
+		c.Eval(gen.HashString("long"+strconv.Itoa(n*10+pos)+cs.Entry), true)
+		c.Count("long_line_cases", 1)
+		det := map[string]any{"line_bytes": n, "position": pos, "err": errStr(o.Err), "out_bytes": len(out)}
+		switch {
+		case o.Panic != nil:
+			c.Violation(cs, "panic", PanicSig(o.Panic, o.Stack), det)
+		case o.Err == nil:
+			if ok, why := c02Complete(m, f, out, rows); !ok {
+				det["why"] = why
+				c.Violation(cs, "accepted.incomplete", "long-line", det)
+			}
+		}
+	}
+	cs.Entry, cs.Tags = "", nil
 }
